@@ -249,4 +249,47 @@ example : ProfileWF Gen.profile = true ∧
      | .ok bs => bs.length
      | .error _ => 0) > 0 := by decide +kernel
 
+/-- **Field sizes in the definitions `Encode` writes are multiples of their base-type size** (and
+    strings, of base size 1, have the profile length): for every lookup entry of a well-formed profile -/
+theorem encoder_sizes_multiple (pm : PMsg) (pf : PField) (h : fieldWF pm pf = true) :
+    (fdOf pf).size % Base.size (tcBase pf.tcode) = 0 ∧ 1 ≤ (fdOf pf).size ∧ (fdOf pf).size ≤ 255 := by
+  have facts := fieldWF_facts pm pf h
+  have hl := facts.len1
+  have hsmall := facts.small
+  have hknown := facts.known
+  show szOf pf % _ = 0 ∧ 1 ≤ szOf pf ∧ szOf pf ≤ 255
+  unfold szOf
+  simp only
+  by_cases hs : tcBase pf.tcode = Base.string
+  · have hb := facts.lenB (Or.inr hs)
+    rw [hs] at hb ⊢
+    have h1 : Base.size Base.string = 1 := by decide
+    rw [h1] at hb ⊢
+    simp only [↓reduceIte, Nat.mod_one, true_and]
+    omega
+  · simp only [hs, ↓reduceIte]
+    have hpos : 1 ≤ Base.size (tcBase pf.tcode) := by
+      unfold Base.known at hknown
+      simp only [Bool.and_eq_true, decide_eq_true_eq, beq_iff_eq] at hknown
+      obtain ⟨hi, _⟩ := hknown
+      unfold Base.size Base.bsize
+      have : Base.index (tcBase pf.tcode) < 17 := hi
+      generalize Base.index (tcBase pf.tcode) = i at this
+      have : ∀ j : Fin 17, 1 ≤ [1, 1, 1, 2, 2, 4, 4, 1, 4, 8, 1, 2, 4, 1, 8, 8, 8].getD j.val 0 := by decide
+      exact this ⟨i, ‹i < 17›⟩
+    cases ha : tcArray pf.tcode with
+    | true =>
+      have hb := facts.lenB (Or.inl ha)
+      simp only [↓reduceIte]
+      have e : Base.size (tcBase pf.tcode) * pf.length % 256 = Base.size (tcBase pf.tcode) * pf.length := Nat.mod_eq_of_lt (by omega)
+      rw [e, e]
+      refine ⟨Nat.mul_mod_right _ _, ?_, hb⟩
+      calc 1 = 1 * 1 := rfl
+        _ ≤ Base.size (tcBase pf.tcode) * pf.length := Nat.mul_le_mul hpos hl
+    | false =>
+      simp only [Bool.false_eq_true, ↓reduceIte]
+      have e : Base.size (tcBase pf.tcode) % 256 = Base.size (tcBase pf.tcode) := Nat.mod_eq_of_lt (by omega)
+      rw [e]
+      exact ⟨Nat.mod_self _, hpos, by omega⟩
+
 end Fit.Props.C05
